@@ -75,8 +75,26 @@ def _no_fallthrough_created(case, failure):
 
 
 def _patch_ret(case, failure):
+    """known only when there was nothing to copy at insertion time: the
+    function had no (other) return with real return sites in the input"""
     d = failure.get("data") or {}
-    return (d.get("origin") or [None])[0] == "patch" and d.get("kind") == "ret"
+    origin = d.get("origin") or [None]
+    if origin[0] != "patch" or d.get("kind") != "ret":
+        return False
+    ed = next((e for e in case.edits if e.reg == origin[1]), None)
+    if ed is None:
+        return False
+    f = case.blocks[ed.b].func
+    if f is None:
+        return True
+    has_ret = any(b.func == f and b.units[-1].kind == "ret" for b in case.blocks if b.code)
+    has_caller = False
+    for b in case.blocks:
+        if b.code and b.units[-1].kind == "call" and b.units[-1].sym in case.label_block:
+            tg = case.blocks[case.label_block[b.units[-1].sym][0]]
+            if tg.func == f and Lm._next_code_block(case, b.gidx) is not None:
+                has_caller = True
+    return not (has_ret and has_caller)
 
 
 KNOWN = {
